@@ -6,6 +6,7 @@ import socket
 from stix2.equivalence.pattern.compare.comparison import (
     object_path_to_raw_values,
 )
+from stix2.patterns import StringConstant
 
 # Values we can use as wildcards in path patterns
 _ANY_IDX = object()
@@ -107,6 +108,10 @@ def windows_reg_key(comp_expr):
         comp_expr: A _ComparisonExpression object whose type is
             windows-registry-key
     """
+    if not isinstance(comp_expr.rhs, StringConstant):
+        # only string constants hold a registry key / value name
+        return
+
     if _path_is(comp_expr.lhs, ("key",)) \
             or _path_is(comp_expr.lhs, ("values", _ANY_IDX, "name")):
         comp_expr.rhs.value = comp_expr.rhs.value.lower()
@@ -127,6 +132,10 @@ def ipv4_addr(comp_expr):
     Args:
         comp_expr: A _ComparisonExpression object whose type is ipv4-addr.
     """
+    if not isinstance(comp_expr.rhs, StringConstant):
+        # only string constants hold an address
+        return
+
     if _path_is(comp_expr.lhs, ("value",)):
         value = comp_expr.rhs.value
         slash_idx = value.find("/")
@@ -139,8 +148,8 @@ def ipv4_addr(comp_expr):
 
         try:
             ip_bytes = socket.inet_aton(ip_str)
-        except OSError:
-            # illegal IPv4 address string
+        except (OSError, ValueError):
+            # illegal IPv4 address string (ValueError: embedded null character)
             return
 
         if is_cidr:
@@ -188,6 +197,10 @@ def ipv6_addr(comp_expr):
     Args:
         comp_expr: A _ComparisonExpression object whose type is ipv6-addr.
     """
+    if not isinstance(comp_expr.rhs, StringConstant):
+        # only string constants hold an address
+        return
+
     if _path_is(comp_expr.lhs, ("value",)):
         value = comp_expr.rhs.value
         slash_idx = value.find("/")
@@ -200,8 +213,8 @@ def ipv6_addr(comp_expr):
 
         try:
             ip_bytes = socket.inet_pton(socket.AF_INET6, ip_str)
-        except OSError:
-            # illegal IPv6 address string
+        except (OSError, ValueError):
+            # illegal IPv6 address string (ValueError: embedded null character)
             return
 
         if is_cidr:
